@@ -17,7 +17,8 @@ import (
 
 // the fourth mode: lz4 frames without content checksum (LZ4F defaults, as non-Go writers emit them): there
 // the chunk CRC is the only thing between a flipped bit and the consumer
-var c07Modes = []rfMode{{true, 64, "", 0}, {true, 64, "zstd", 0}, {true, 64, "lz4", 0}, {true, 64, "", 4}}
+// the fifth mode: a caller-supplied codec on both sides (LexerOptions.Decompressors) that cannot notice damage itself
+var c07Modes = []rfMode{{true, 64, "", 0}, {true, 64, "zstd", 0}, {true, 64, "lz4", 0}, {true, 64, "", 4}, {true, 64, "", 1}}
 
 type chunkSpan struct {
 	recOff, recLen int // stored records field
@@ -63,6 +64,20 @@ func c07ChunkBody(family string, nWork int) explore.Body {
 		f := chooseFile(x, nWork, c07Modes, false)
 		spans := chunkSpans(f.dec)
 		orig := truthOf(f, rkLexerValidate, true)
+		if dc := f.cfg.Decompressors(); dc != nil {
+			// files of a caller-supplied codec are read with the matching caller-supplied decompressor
+			fileCacheMu.Lock()
+			t := truthCache[f.key+"|custom"]
+			fileCacheMu.Unlock()
+			if t == nil {
+				lr := gow.Lex(bytes.NewReader(f.bytes), gow.LexOpts{Validate: true, AttCRC: true, Decomp: dc})
+				t = &readOutcome{toks: lr.Toks, err: lr.Err, panic: lr.Panic}
+				fileCacheMu.Lock()
+				truthCache[f.key+"|custom"] = t
+				fileCacheMu.Unlock()
+			}
+			orig = t
+		}
 		b := append([]byte(nil), f.bytes...)
 		hit := -1
 		desc := "intact"
@@ -137,7 +152,7 @@ func c07ChunkBody(family string, nWork int) explore.Body {
 		ctxs := fmt.Sprintf(" — %s — %s — %s", desc, f.cfg, f.c)
 		x.State = explore.Hash(b)
 		for _, emitInvalid := range []bool{false, true} {
-			lr := gow.Lex(bytes.NewReader(b), gow.LexOpts{Validate: true, EmitInvalid: emitInvalid, AttCRC: true, Limit: len(orig.toks) + 8})
+			lr := gow.Lex(bytes.NewReader(b), gow.LexOpts{Validate: true, EmitInvalid: emitInvalid, AttCRC: true, Limit: len(orig.toks) + 8, Decomp: f.cfg.Decompressors()})
 			what := fmt.Sprintf("validating lexer(emitInvalid=%v)", emitInvalid)
 			if lr.Panic != "" {
 				return vio("C07:panic", "%s panicked: %s%s", what, lr.Panic, ctxs)
